@@ -5,13 +5,24 @@ import time
 
 import common
 import ledger
+import proto
 from common import Outcome, log, run_tlc, write_evidence
 
 # property -> list of (module, cfg, workers, timeout_quick, timeout_thorough) exhaustive design-level models
-LEVEL_A = {
-}
+_IX = [("Indexer.tla", "Indexer_a.cfg", 8, 600, 600), ("Indexer.tla", "Indexer_b.cfg", 8, 900, 900)]
+_IX_T = _IX + [("Indexer.tla", "Indexer_c.cfg", 8, 1800, 1800), ("Indexer.tla", "Indexer_d.cfg", 8, 1800, 1800)]
+LEVEL_A = {"C12": _IX, "C13": _IX, "C14": _IX}
+LEVEL_A_THOROUGH = {"C12": _IX_T, "C13": _IX_T, "C14": _IX_T}
 
-LEVELS = {}
+LEVELS = {"C12": "model_checking", "C13": "fault_enumeration", "C14": "model_checking"}
+
+ASSUME_PROTO = [
+    "content equality is judged on a digest of every table row except WRITE_TRANSACTION_STARTING_BLOCK_COUNT_TO_TIMESTAMP "
+    "and the statistics Commits, InitialSyncTime, LastSavepointHeight (timing and commit bookkeeping)",
+    "the node's best chain changes only between update calls; a new best chain is strictly longer than the indexed tip",
+    "mockcore reports getblockchaininfo.headers = 0 (savepoints are always considered near the tip)",
+    "crashes are injected at the guarded crash points (between redb transactions and between blocks), by abort()",
+]
 
 ASSUME_LEDGER = [
     "values are multiples of K=10^6 sats (a non-multiple in the observed state is itself reported)",
@@ -28,7 +39,8 @@ def level_a(prop, tier):
     total_states = 0
     total_distinct = 0
     runs = []
-    for (module, cfg, workers, tq, tt) in LEVEL_A.get(prop, []):
+    table = LEVEL_A_THOROUGH if tier == "thorough" and prop in LEVEL_A_THOROUGH else LEVEL_A
+    for (module, cfg, workers, tq, tt) in table.get(prop, []):
         timeout = tq if tier == "quick" else tt
         res = run_tlc(module, cfg, workers=workers, timeout=timeout, deque=False)
         if res.get("timeout"):
@@ -47,6 +59,9 @@ def run(prop, tier, seed, t0):
     if prop in ledger.LEDGER_PROPS:
         outcome, cov, wall = ledger.run(prop, tier, seed)
         assumptions = ASSUME_LEDGER
+    elif prop in ("C12", "C13", "C14"):
+        outcome, cov, wall = proto.run(prop, tier, seed)
+        assumptions = ASSUME_PROTO
     else:
         raise common.ToolError("no check registered for %s" % prop)
     states, distinct, runs = level_a(prop, tier)
